@@ -325,11 +325,10 @@ Proof.
 Qed.
 
 Lemma grow_loop_store K E H a b : forall fuel lvl n, node_ok K lvl n -> store_ok E H lvl n ->
-  (forall lvl' n', node_ok K lvl' n' -> True) ->
   a < b -> K * pow10 8 <= a -> b <= (K + 1) * pow10 8 -> fuel = (8 - lvl)%nat ->
   let '(lvl', n') := s_grow_loop fuel a b lvl n in store_ok E H lvl' n'.
 Proof.
-  induction fuel as [|f IH]; intros lvl n Hok Hst _ Hab Ha Hb Hf; cbn [s_grow_loop].
+  induction fuel as [|f IH]; intros lvl n Hok Hst Hab Ha Hb Hf; cbn [s_grow_loop].
   - destruct (relationship _ _ a b); exact Hst.
   - destruct (relationship _ _ a b); try exact Hst;
       (destruct (sn_replace lvl _ n) as [root1|] eqn:Er; [|exact Hst];
@@ -353,7 +352,7 @@ Proof.
            [ intros H2; rewrite (list_set_count_one _ _ _ _ El) in H2; lia
            | eapply list_set_oall; [exact Htwo|exact El] ]
          | split; cbn [sn_time]; lia ]
-       | specialize (IH (S lvl) root1 Hok1 Hst1 (fun _ _ _ => I) Hab Ha Hb ltac:(lia));
+       | specialize (IH (S lvl) root1 Hok1 Hst1 Hab Ha Hb ltac:(lia));
          destruct (s_grow_loop f a b (S lvl) root1); exact IH ]).
 Qed.
 
@@ -371,7 +370,7 @@ Proof.
   - destruct Hs as [Hok Hst]. pose proof (pow10_pos lvl).
     destruct Hok as (Hl & Hwf & Htwo & Hb1 & Hb2).
     pose proof (grow_loop_store K E H (Z.min a (sn_time n)) (Z.max b (sn_time n + pow10 lvl))
-                  (max_level - lvl)%nat lvl n (conj Hl (conj Hwf (conj Htwo (conj Hb1 Hb2)))) Hst (fun _ _ _ => I)
+                  (max_level - lvl)%nat lvl n (conj Hl (conj Hwf (conj Htwo (conj Hb1 Hb2)))) Hst
                   ltac:(lia) ltac:(lia) ltac:(lia) eq_refl) as GS.
     destruct (s_grow_loop _ _ _ lvl n) as [lvl' n']. destruct G as (G1 & G2 & G3). auto.
   - destruct Hs as [HH HE]. subst H.
@@ -382,7 +381,7 @@ Proof.
     { split; [apply quiet_new_node; intros k _; apply HE|].
       split; [apply ninv_new_node; constructor|].
       split; [intros k _; apply HE|]. split; [rewrite content_new_node; reflexivity|constructor]. }
-    pose proof (grow_loop_store K E [] a b max_level 0%nat (new_node a 0) Hn Hst (fun _ _ _ => I) Hab Ha Hb eq_refl) as GS.
+    pose proof (grow_loop_store K E [] a b max_level 0%nat (new_node a 0) Hn Hst Hab Ha Hb eq_refl) as GS.
     destruct (s_grow_loop _ _ _ _ _) as [lvl' n']. destruct G as (G1 & G2 & G3). auto.
 Qed.
 
